@@ -7,6 +7,7 @@ import (
 	"io"
 
 	"github.com/hujm2023/go-sms-protocol/packet"
+	"github.com/hujm2023/go-sms-protocol/verifhook"
 )
 
 var ErrLength = errors.New("Options: error length")
@@ -117,6 +118,7 @@ func (o Options) Serialize() []byte {
 	for _, v := range o {
 		b = append(b, v.Bytes()...)
 	}
+	b = verifhook.ReorderTriplets(b)
 	return b
 }
 
